@@ -1,0 +1,52 @@
+//go:build verif
+
+// Contracts for package kapacitor, read by /verif/engine (govc). This file contains
+// comments only: with or without the "verif" build tag it adds no code to the package.
+package kapacitor
+
+// ---------------------------------------------------------------- circularqueue.go (C12, C05)
+
+//@ spec qidx(h int, i int, n int) int = ite(h+i >= n, h+i-n, h+i)
+//@ spec qview(q *CircularQueue[T], i int) T = q.data[qidx(q.head, i, len(q.data))]
+//@ spec qwf(q *CircularQueue[T]) bool = q != nil && len(q.data) == cap(q.data) && len(q.data) >= 1
+//@     && 0 <= q.head && q.head <= len(q.data) && 0 <= q.tail && q.tail <= len(q.data)
+//@     && 0 <= q.Len && q.Len <= len(q.data)
+//@     && (q.head + q.Len == q.tail || q.head + q.Len == q.tail + len(q.data))
+//@     && (q.Len == 0 ==> q.head == q.tail)
+
+//@ func (*CircularQueue[T]).Peek
+//@   props C12 C05
+//@   requires qwf(q)
+//@   requires 0 <= i && i < q.Len
+//@   pure
+//@   ensures result == qview(q, i)
+
+//@ func (*CircularQueue[T]).Enqueue
+//@   props C12 C05
+//@   requires qwf(q)
+//@   modifies q.head, q.tail, q.Len, q.data, elems(q.data)
+//@   ensures qwf(q)
+//@   ensures q.Len == old(q.Len) + 1
+//@   ensures qview(q, old(q.Len)) == v
+//@   ensures forall i int :: 0 <= i && i < old(q.Len) ==> qview(q, i) == old(qview(q, i))
+
+//@ func (*CircularQueue[T]).Dequeue
+//@   props C12 C05
+//@   requires qwf(q)
+//@   modifies q.head, q.tail, q.Len, elems(q.data)
+//@   ensures qwf(q)
+//@   ensures q.Len == old(q.Len) - ite(n <= 0, 0, ite(old(q.Len) <= n, old(q.Len), n))
+//@   ensures forall i int :: 0 <= i && i < q.Len ==> qview(q, i) == old(qview(q, i + ite(n <= 0, 0, n)))
+//@   loop 1
+//@     modifies elems(q.data)
+//@     invariant q.head <= i && i <= len(q.data) && 0 <= ni && i - q.head == n - ni
+//@     invariant forall k int :: 0 <= k && k < len(q.data) && (k < q.head || k >= i) ==> q.data[k] == old(q.data[k])
+//@   loop 2
+//@     modifies elems(q.data)
+//@     invariant 0 <= i && i <= q.tail && 0 <= ni && (len(q.data) - q.head + i == n - ni || (i == 0 && ni == 0))
+//@     invariant forall k int :: i <= k && k < q.head ==> q.data[k] == old(q.data[k])
+//@     invariant forall k int :: q.head <= k && k < len(q.data) && k - q.head >= n - ni ==> q.data[k] == old(q.data[k])
+//@   loop 3
+//@     modifies elems(q.data)
+//@     invariant q.head <= i && i <= q.tail && 0 <= ni && i - q.head == n - ni
+//@     invariant forall k int :: 0 <= k && k < len(q.data) && (k < q.head || k >= i) ==> q.data[k] == old(q.data[k])
